@@ -8,11 +8,12 @@ Specification side of C08, written from the W3C texts and independent of the mod
 * XPath and XQuery Functions and Operators 3.1 (https://www.w3.org/TR/xpath-functions-31/)
   §14.1 (empty, exists, head, tail, insert-before, remove, reverse, subsequence),
   §14.2 (distinct-values, index-of), §14.3 (zero-or-one, one-or-more, exactly-one),
-  §14.4 (count, avg, max, min, sum), §5.4.2 (string-join), §4.4.4 (round), §7.3.1 (boolean).
+  §14.4 (count, avg, max, min, sum), §5.4.2 (string-join), §4.4.4 (round), §7.3.1 (boolean),
+  §19.1.2.2 (cast of xs:untypedAtomic to xs:double).
 
 Only the value types (`XV`, `D`, `Atom`, `Err`, `Expr`) and the arithmetic kernel
 (EPV/Model/SeqFunsNum.lean: exact order of extended values, `rnd` = IEEE 754 round-to-nearest,
-`D.add`/`D.mul`, `roundSig28`) are shared with the model.  Where the W3C texts leave a choice to
+`D.add`/`D.mul`, `roundSig28`, `lexDouble` = lexical mapping of xs:double) are shared with the model.  Where the W3C texts leave a choice to
 the implementation (which operand error is reported; whether a quantifier stops at the first
 decisive tuple, XPath §2.3.4 and §3.12), this specification (`sem`) fixes: operands left to right,
 binding sequences evaluated completely before iterating, quantifiers stop at the first decisive
@@ -224,8 +225,8 @@ def ebv (s : Seq) : Except Err Bool :=
 def allKind (k : Kind) (s : Seq) : Bool := s.all fun a => kind a == k
 def allInt (s : Seq) : Bool := s.all fun a => match a with | .int _ => true | _ => false
 def anyDouble (s : Seq) : Bool := s.any isDouble
-/-- nodes and xs:untypedAtomic arguments of the aggregates (cast to xs:double from the lexical
-form) are outside the modelled fragment -/
+/-- nodes and xs:untypedAtomic values are cast to xs:double (`castUntyped`, `castNodes`, `avgItems`)
+before the cores `sumCore` / `avgCore` / `minMaxCore` see them; the cores reject them -/
 def outsideAgg (s : Seq) : Bool :=
   s.any fun a => match a with | .node _ | .untyped _ => true | _ => false
 
